@@ -211,8 +211,19 @@ def r4_table(ctx):
                                             if isinstance(x, ast.Subscript) and isinstance(x.value, ast.Name) and x.value.id == table and ast.dump(x.slice) == key and isinstance(x.ctx, ast.Load):
                                                 ok = True
                             if isinstance(anc, ast.If):
-                                tt = anc.test
-                                if isinstance(tt, ast.Compare) and len(tt.ops) == 1 and isinstance(tt.ops[0], ast.NotIn) and isinstance(tt.comparators[0], ast.Name) and tt.comparators[0].id == table and ast.dump(tt.left) == key and any(is_within(a, s) for s in anc.body):
+                                # idiom 2: the branch of a membership test on which the key is absent, whatever the spelling
+                                # (`if k not in t:` body, `if k in t: .. else:` orelse, `if not (k in t)`, `v = t.get(k); if v is None:`)
+                                tt, neg = anc.test, False
+                                while isinstance(tt, ast.UnaryOp) and isinstance(tt.op, ast.Not):
+                                    tt, neg = tt.operand, not neg
+                                absent_branch = None
+                                if isinstance(tt, ast.Compare) and len(tt.ops) == 1 and isinstance(tt.ops[0], (ast.In, ast.NotIn)) and isinstance(tt.comparators[0], ast.Name) and tt.comparators[0].id == table and ast.dump(tt.left) == key:
+                                    absent_branch = anc.body if isinstance(tt.ops[0], ast.NotIn) != neg else anc.orelse
+                                elif isinstance(tt, ast.Compare) and len(tt.ops) == 1 and isinstance(tt.ops[0], (ast.Is, ast.IsNot)) and isinstance(tt.comparators[0], ast.Constant) and tt.comparators[0].value is None:
+                                    got = deref_at(f.node, tt.left) if isinstance(tt.left, ast.Name) else tt.left
+                                    if isinstance(got, ast.Call) and isinstance(got.func, ast.Attribute) and got.func.attr == 'get' and isinstance(got.func.value, ast.Name) and got.func.value.id == table and len(got.args) == 1 and ast.dump(got.args[0]) == key:
+                                        absent_branch = anc.body if isinstance(tt.ops[0], ast.Is) != neg else anc.orelse
+                                if absent_branch and any(is_within(a, s_) for s_ in absent_branch):
                                     ok = True
                         ctx.check(
                             ok,
